@@ -854,6 +854,17 @@ func ruleMemberPrecedence(c *Ctx) []Obligation {
 				continue
 			}
 			win, hasDyn, _ := r2tWinners(t)
+			// the string-keyed storage of every kind: a member lookup that reads it directly must agree
+			// with the kind's table; a table without own-field entries never answers with stored data
+			for i := 0; i < vi.st.NumFields(); i++ {
+				f := vi.st.Field(i)
+				if mt, ok := f.Type().Underlying().(*types.Map); ok {
+					if b, ok := mt.Key().Underlying().(*types.Basic); ok && b.Kind() == types.String && !hasDyn {
+						dynFields[l][f] = vi.Name()
+						tableWin[l][f] = "builtin"
+					}
+				}
+			}
 			if !hasDyn {
 				if ar != nil && ar.tab.ok && ar.hasDyn && len(t.evs) > 0 {
 					add(base+"dynamic members", fd.Pos(), Violated, true,
@@ -958,6 +969,72 @@ func ruleMemberPrecedence(c *Ctx) []Obligation {
 	return obs
 }
 
+// r2tTerminates: no path through the statement list reaches its end.
+func r2tTerminates(info *types.Info, list []ast.Stmt) bool {
+	if len(list) == 0 {
+		return false
+	}
+	switch last := list[len(list)-1].(type) {
+	case *ast.ReturnStmt:
+		return true
+	case *ast.BranchStmt:
+		return last.Tok != token.FALLTHROUGH
+	case *ast.BlockStmt:
+		return r2tTerminates(info, last.List)
+	case *ast.IfStmt:
+		if last.Else == nil || !r2tTerminates(info, last.Body.List) {
+			return false
+		}
+		switch e := last.Else.(type) {
+		case *ast.BlockStmt:
+			return r2tTerminates(info, e.List)
+		case *ast.IfStmt:
+			return r2tTerminates(info, []ast.Stmt{e})
+		}
+		return false
+	default:
+		return IsPanicCall(info, last)
+	}
+}
+
+// r2tStorageFieldsOf: the struct fields an indexed expression may denote: `x.F`, or a local every
+// definition of which (in fd) is such a selector (a `var m map…` filled in a type switch).
+func r2tStorageFieldsOf(info *types.Info, fd *ast.FuncDecl, e ast.Expr, depth int) []*types.Var {
+	if f := r2tFieldOfExpr(info, e); f != nil {
+		return []*types.Var{f}
+	}
+	id, ok := ast.Unparen(e).(*ast.Ident)
+	if !ok || depth > 2 {
+		return nil
+	}
+	o := r2tObj(info, id)
+	if v, ok := o.(*types.Var); !ok || v.IsField() {
+		return nil
+	}
+	seen := map[*types.Var]bool{}
+	var out []*types.Var
+	ast.Inspect(fd.Body, func(n ast.Node) bool {
+		as, ok := n.(*ast.AssignStmt)
+		if !ok || len(as.Lhs) != len(as.Rhs) {
+			return true
+		}
+		for i, lh := range as.Lhs {
+			if r2tObj(info, lh) != o {
+				continue
+			}
+			for _, f := range r2tStorageFieldsOf(info, fd, as.Rhs[i], depth+1) {
+				if !seen[f] {
+					seen[f] = true
+					out = append(out, f)
+				}
+			}
+		}
+		return true
+	})
+	sort.Slice(out, func(i, j int) bool { return out[i].Pos() < out[j].Pos() })
+	return out
+}
+
 // r2tLookupSites: every `X.Fields()` call on a runtime value; a read of the
 // dynamic storage of a mixed kind indexed by the same name before the table
 // lookup makes own fields win at that site whatever the table says.
@@ -1011,24 +1088,30 @@ func r2tLookupSites(c *Ctx, l *mbLib, rel string, dyn map[*types.Var]string, tab
 			var bypass []string
 			bad := false
 			ast.Inspect(region, func(n ast.Node) bool {
+				// a block that never falls through (every path returns / panics / leaves the clause) and does
+				// not contain the table lookup belongs to another path (another operator, an error exit)
+				if blk, ok := n.(*ast.BlockStmt); ok && !(blk.Pos() <= as.Pos() && as.Pos() <= blk.End()) && r2tTerminates(info, blk.List) {
+					return false
+				}
+				if cc, ok := n.(*ast.CaseClause); ok && !(cc.Pos() <= as.Pos() && as.Pos() <= cc.End()) && r2tTerminates(info, cc.Body) {
+					return false
+				}
 				ix, ok := n.(*ast.IndexExpr)
 				if !ok || ix.Pos() >= as.Pos() {
-					return true
-				}
-				f := r2tFieldOfExpr(info, ix.X)
-				if f == nil {
-					return true
-				}
-				owner, isDyn := dyn[f]
-				if !isDyn {
 					return true
 				}
 				if nameExpr != nil && !r2tSameExpr(info, nameExpr, ix.Index) {
 					return true
 				}
-				bypass = append(bypass, fmt.Sprintf("%s.%s[%s] at %s", owner, f.Name(), exprStr(ix.Index), c.Pos(ix.Pos())))
-				if tableWin[f] != "own field" {
-					bad = true
+				for _, f := range r2tStorageFieldsOf(info, fd, ix.X, 0) {
+					owner, isDyn := dyn[f]
+					if !isDyn {
+						continue
+					}
+					bypass = append(bypass, fmt.Sprintf("%s.%s[%s] at %s (table of %s: the %s wins)", owner, f.Name(), exprStr(ix.Index), c.Pos(ix.Pos()), owner, tableWin[f]))
+					if tableWin[f] != "own field" {
+						bad = true
+					}
 				}
 				return true
 			})
@@ -1036,7 +1119,7 @@ func r2tLookupSites(c *Ctx, l *mbLib, rel string, dyn map[*types.Var]string, tab
 			case len(bypass) == 0:
 				o.Status, o.Detail = Discharged, "the member is looked up in the table returned by "+exprStr(call)+" only: the precedence is the table's"
 			case bad:
-				o.Status, o.Detail = Violated, "own fields are consulted before the member table ("+strings.Join(bypass, "; ")+") although the table lets the builtin win: the lookup order at this site contradicts the table"
+				o.Status, o.Detail = Violated, "stored data is consulted before the member table ("+strings.Join(bypass, "; ")+") although that kind's table lets the builtin win (or never contains stored data at all): for a value whose data has a key spelled like a builtin member, `x.name` yields the data here while the analyzer and the other engine resolve the builtin"
 			default:
 				o.Status, o.Detail = Discharged, "own fields are consulted first ("+strings.Join(bypass, "; ")+"), consistent with a table in which own fields win"
 			}
